@@ -247,5 +247,9 @@ def r7_ring(chk, conn):
     src = norm(f.node)
     ok = (f"for a in self.connected_atoms({b}.a1) if a != {b}.a2" in src and f"self.yield_bfs({b}.a1, {b}.a2)" in src and "if a in connections" in src and "return True" in src and src.rstrip().endswith("return False")) or \
          (f"for a in self.connected_atoms({b}.a2) if a != {b}.a1" in src and f"self.yield_bfs({b}.a2, {b}.a1)" in src and "if a in connections" in src)
+    rets = [r for r in walk_no_nested(f.node) if isinstance(r, ast.Return)]
+    vals = sorted(norm(r.value) for r in rets if r.value is not None)
+    ok = ok and vals == ["False", "True"]
     chk.decide(ok, "C15.R7", f"{f.key}:bridge-test", f.where(), "bond a1-a2 is in a ring iff the BFS from a1 through a2 reaches another neighbour of a1",
-               "is_bond_in_ring no longer searches, from a1 through a2 only, for another neighbour of a1: bridges are reported as ring bonds or ring bonds as bridges")
+               f"is_bond_in_ring no longer decides only by searching, from a1 through a2, for another neighbour of a1 (returns: {vals}): a shortcut answers without looking at the graph, "
+               "so bridges are reported as ring bonds or ring bonds as bridges")
